@@ -90,6 +90,15 @@ def enc(v):
         return {"$d": [[enc(k), enc(x)] for k, x in v.items()]}
     if isinstance(v, Opaque):
         return {"$o": 1}
+    import collections
+    import types
+
+    if isinstance(v, types.MappingProxyType):
+        return {"$mp": enc(dict(v))}
+    if isinstance(v, collections.UserDict):
+        return {"$ud": enc(dict(v))}
+    if isinstance(v, collections.ChainMap):
+        return {"$cm": enc(dict(v))}
     if isinstance(v, DigestSpec):
         return {"$digest": [v.alg, enc(v.secret), enc(v.salt)] + ([True] if v.raw else [])}
     if isinstance(v, complex):
@@ -121,6 +130,12 @@ def dec(v):
                 return {dec(a): dec(b) for a, b in x}
             if k == "$o":
                 return Opaque()
+            if k in ("$mp", "$ud", "$cm"):
+                import collections
+                import types
+
+                d = dec(x)
+                return types.MappingProxyType(d) if k == "$mp" else collections.UserDict(d) if k == "$ud" else collections.ChainMap(d)
             if k == "$digest":
                 return DigestSpec(x[0], dec(x[1]), dec(x[2]), raw=len(x) > 3 and bool(x[3]))
             if k == "$c":
